@@ -261,6 +261,9 @@ func (am *Machine) handleStateDkgResponsesAwaitConfirmations(o *client.Operation
 		if err = json.Unmarshal(decryptedDealBz, &deal); err != nil {
 			return fmt.Errorf("failed to unmarshal deal")
 		}
+		if deal.Deal == nil {
+			return fmt.Errorf("malformed deal from %s: encrypted deal is missing", entry.Username)
+		}
 		dkgInstance.StoreDeal(entry.Username, &deal)
 	}
 
@@ -313,6 +316,11 @@ func (am *Machine) handleStateDkgMasterKeyAwaitConfirmations(o *client.Operation
 		var entryResponses []*dkgPedersen.Response
 		if err = json.Unmarshal(entry.DkgResponse, &entryResponses); err != nil {
 			return fmt.Errorf("failed to unmarshal responses: %w", err)
+		}
+		for _, entryResponse := range entryResponses {
+			if entryResponse == nil || entryResponse.Response == nil {
+				return fmt.Errorf("malformed response from %s", entry.Username)
+			}
 		}
 		dkgInstance.StoreResponses(entry.Username, entryResponses)
 	}
